@@ -55,6 +55,7 @@ import r63_requiredguess
 import r64_wdlayout
 import r65_returnroles
 import r66_optionsfamily
+import r67_setterfield
 import r06_validate
 import r07_cache
 import r08_toporder
@@ -269,6 +270,10 @@ def r56(ctx, prop):
 
 def r57(ctx, prop):
     return r57_roleslot.run(ctx.F())
+
+
+def r67(ctx, prop):
+    return r67_setterfield.run(ctx.F())
 
 
 def r66(ctx, prop):
@@ -502,6 +507,7 @@ def r10_selector(ctx, prop):
 
 R10F_SCOPES = {
     "C10": None,
+    "C01": ("feos_core::state",),
     "C04": ("phase_equilibria::vle_pure", "phase_equilibria::phase_diagram_pure"),
     "C05": ("phase_equilibria::tp_flash", "phase_equilibria::bubble_dew", "phase_equilibria::phase_diagram_binary",
             "phase_equilibria::phase_envelope", "phase_equilibria::PhaseEquilibrium"),
@@ -551,11 +557,11 @@ PROPERTY_RULES = {
     "C15": [r15],
     "C16": [r51, r52, r53, r56, r48, r10_selconst, r55, r64, r18],
     "C20": [r10_transport, r21, r25, r24, r34, r10_selconst, r41, r47, r60],
-    "C01": [r1_all, r2, r7, r8, r4, r25, r24, r26, r28, r29, r39, r40, r44, r20b],
+    "C01": [r1_all, r2, r7, r8, r4, r25, r24, r26, r28, r29, r39, r40, r44, r20b, r10_selconst],
     "C13": [r1_guard, r8, r21, r32, r36, r43],
     "C17": [r1_functional, r8, r22, r25, r21, r26, r28, r33, r40, r44, r47, r48, r62],
     "C11": [r9, r7],
-    "C03": [r6, r17, r4, r5, r25, r24, r26, r31, r40, r43, r44],
+    "C03": [r6, r17, r4, r5, r25, r24, r26, r31, r40, r43, r44, r67],
     "C04": [r4, r16, r25, r24, r26, r31, r10_selconst, r40, r46, r50, r65, r66],
     "C05": [r4, r5, r16, r25, r24, r26, r31, r10_selconst, r39, r40, r43, r44, r46, r57, r65, r66],
     "C06": [r4, r1_all, r21, r25, r24, r26, r28, r31, r39, r40, r20b, r50, r59, r66],
